@@ -9,8 +9,11 @@ import (
 	"path/filepath"
 	"strings"
 	"sync"
+	"sync/atomic"
 	"time"
 )
+
+var queryCounter int64
 
 type solverSpec struct {
 	name string
@@ -71,7 +74,7 @@ func runSolver(ctx context.Context, sp solverSpec, file string, secs int, rec bo
 
 // solveQuery: quick single-solver attempt, then a race of all solvers.
 func solveQuery(workdir, name, query string, secs int, requireAll bool) solveResult {
-	file := filepath.Join(workdir, sanitize(name)+".smt2")
+	file := filepath.Join(workdir, fmt.Sprintf("%d-%s.smt2", atomic.AddInt64(&queryCounter, 1), sanitize(name)))
 	if err := os.WriteFile(file, []byte(query), 0644); err != nil {
 		return solveResult{"error", "io", 0, err.Error()}
 	}
